@@ -196,7 +196,10 @@ Proof.
 Qed.
 
 Lemma u32_ok_u64_ok : forall n, u32_ok n = true -> u64_ok n = true.
-Proof. intros n H. unfold u32_ok, u64_ok, two32, two64 in *. lia. Qed.
+Proof.
+  intros n H. unfold u32_ok, u64_ok in *. apply N.ltb_lt in H. apply N.ltb_lt.
+  unfold two32, two64 in *. lia.
+Qed.
 
 (* ---- take ------------------------------------------------------------------------ *)
 Lemma take_exact_app : forall {A} (a b : list A), take_exact (length a) (a ++ b) = Some (a, b).
